@@ -3,4 +3,4 @@
 set -e
 DIR="$(cd "$(dirname "$0")" && pwd)"
 cd "$DIR/lean"
-lake build ChipFiring Driver driver
+lake build driver ChipFiring.AuditCmd ChipFiring.Properties
